@@ -24,7 +24,8 @@ Definition enc_target (tag : list Z) (t : ptarget) : pv :=
       end)].
 
 Definition naming_lib : strlib :=
-  {| sl_strip := Naming.strip; sl_lower := fun s => s; sl_parseline := fun _ => None; sl_getattr := fun _ => None |}.
+  {| sl_strip := Naming.strip; sl_lower := fun s => s; sl_parseline := fun _ => None; sl_getattr := fun _ => None;
+     sl_ext := no_ext |}.
 
 Theorem target_name_src : forall call_ref msg tag t,
   zeqb tag column_tag = false ->                      (* the class of a non-Column expression node *)
